@@ -566,6 +566,24 @@ def case_ltan(ctx, job, idx, rng, st):
     dl = min(dl, 86400.0 - dl)
     ctx.resid(f"ltan:raan2ltan(ltan2raan(ltan)) - ltan (s) [{typ}]", dl, 1e-6, key=f"C19/raan2ltan-not-inverse-of-ltan2raan-{typ}",
               witness=w, msg=f"{typ}: raan2ltan(ltan2raan({lt!r})) = {l2!r}")
+    # orb2ltan(orbit): the LTAN of an orbit is that of its node in EME2000, in whichever form / frame the orbit is given
+    if idx % 4 == 0:
+        from beyond.orbits import StateVector
+
+        mu_e = float(gen.bodies()["Earth"].mu)
+        inc_o = rng.uniform(0.3, 2.8)
+        r_o, v_o = el.kep2cart(rng.uniform(6.8e6, 9e6), rng.uniform(1e-3, 0.05), inc_o, raan, rng.uniform(0, TWO_PI), rng.uniform(0, TWO_PI), mu_e)
+        try:
+            sv = StateVector(np.concatenate([r_o, v_o]), date, "cartesian", "EME2000")
+            given = sv.copy(form=rng.choice(["cartesian", "keplerian", "spherical"]), frame=rng.choice(["EME2000", "MOD", "TEME", "ITRF"]))
+            lo = float(LT.orb2ltan(given, typ))
+            dl_o = abs(lo - l1) % 86400.0
+            ctx.count("ltan:orb2ltan")
+            ctx.resid(f"ltan:orb2ltan - raan2ltan (s) [{typ}]", min(dl_o, 86400.0 - dl_o), 1e-5, key=f"C19/orb2ltan-differs-from-raan2ltan-{typ}",
+                      witness=dict(w, orbit_form=given.form.name, orbit_frame=str(given.frame), orb2ltan=lo, raan2ltan=l1),
+                      msg=f"{typ}: orb2ltan of an orbit whose node is at {raan!r} in EME2000 gives {lo!r} s, raan2ltan {l1!r} s")
+        except Exception as exc:
+            ctx.violation("C19/ltan-raises", dict(w, exc=repr(exc), call="orb2ltan"), f"orb2ltan raised {exc!r}")
     # information only: mean and true differ by the equation of time (|EoT| < 16.5 min) -- not in the statement
     try:
         lm = float(LT.raan2ltan(date, raan, "mean"))
